@@ -257,6 +257,33 @@ Fixpoint pull_all (next : list Z -> rres * list Z) (fuel : nat) (src : list Z)
 Definition pr_all (t : table) (src : list Z) := pull_all (pr_next t) (S (length src)) src.
 Definition apr_all (t : table) (src : list Z) := pull_all (apr_next t) (S (length src)) src.
 
+(* What the push parser makes of the same bytes fed in one call, in the vocabulary of the
+   pull readers: the packets emitted, and how the stream ends (cleanly at a packet
+   boundary / inside a packet / at an unknown type byte). *)
+Definition is_init (s : parser) : bool :=
+  match p_st s, p_pkt s, p_info s with
+  | NeedType, [], None => p_needed s =? 1
+  | _, _, _ => false
+  end.
+
+Fixpoint first_error (o : list out) : option Z :=
+  match o with
+  | [] => None
+  | Error ty :: _ => Some ty
+  | Packet _ :: r => first_error r
+  end.
+
+Definition push_summary (t : table) (data : list Z) : list (list Z) * rres :=
+  let '(s, o, st) := feed t reset data in
+  (packets_of o,
+   match st with
+   | Ok => if is_init s then RAtEnd else RTooShort
+   | Raised => match first_error o with Some ty => RInvalid ty | None => RFuel end
+   | OutOfFuel => RFuel
+   end).
+
+Definition async_end (e : rres) : rres := match e with RAtEnd => RTooShort | x => x end.
+
 (* ------------------------------------------------------------------ USB PacketSplitter *)
 (* one iteration of `while data:`; returns (self.packet, emitted, remaining data) *)
 Definition split_iter (lo ls : Z) (pkt data : list Z) : list Z * list (list Z) * list Z :=
@@ -365,16 +392,17 @@ Definition ws_connection (t : table) (s : parser) (msgs : list (option (list Z))
 (* ------------------------------------------------------------------ evaluation support
    (used only by tools/harness/c02.py to keep case literals and results small) *)
 
-(* n pseudo-random bytes from a seed: b_k = (a*k*k + c*k + seed) mod 256 *)
-Fixpoint gen_bytes (n : nat) (k seed : Z) : list Z :=
+(* n generated bytes starting from v (0 <= v < 256): v, then +7 with wrap-around (+1 on
+   every wrap, so the period is long); cheap to evaluate for 65535-byte bodies *)
+Fixpoint gen_bytes (n : nat) (v : Z) : list Z :=
   match n with
   | O => []
-  | S n' => ((seed + k * 7 + (k / 13) * 5 + (k / 251) * 3) mod 256) :: gen_bytes n' (k + 1) seed
+  | S n' => v :: gen_bytes n' (let x := v + 7 in if x <? 256 then x else x - 255)
   end.
 
 (* packet descriptor: explicit head bytes followed by n generated bytes *)
 Definition mk_packet (d : list Z * (Z * Z)) : list Z :=
-  let '(head, (n, seed)) := d in head ++ gen_bytes (Z.to_nat n) 0 seed.
+  let '(head, (n, seed)) := d in head ++ gen_bytes (Z.to_nat n) seed.
 Definition mk_stream (ds : list (list Z * (Z * Z))) : list Z := concat (map mk_packet ds).
 
 (* cut a stream into chunks of the given sizes; what is left is the last chunk *)
@@ -385,7 +413,7 @@ Fixpoint cut (sizes : list Z) (data : list Z) : list (list Z) :=
   end.
 
 Definition hash_bytes (p : list Z) : Z :=
-  fold_left (fun a b => (a * 31 + b + 1) mod 1000000007) p 7.
+  fold_left (fun a b => Z.land (a * 33 + b + 1) 1073741823) p 7.
 
 (* digest of a packet: (length, hash, the bytes themselves when short / first 8 bytes) *)
 Definition digest (p : list Z) : Z * Z * list Z :=
@@ -401,9 +429,4 @@ Definition rres_digest (r : rres) : Z * Z :=
   match r with
   | RPacket _ => (0, 0) | RAtEnd => (1, 0) | RInvalid ty => (2, ty) | RTooShort => (3, 0)
   | RFuel => (4, 0)
-  end.
-Definition is_init (s : parser) : bool :=
-  match p_st s, p_pkt s, p_info s with
-  | NeedType, [], None => p_needed s =? 1
-  | _, _, _ => false
   end.
